@@ -166,6 +166,16 @@ def check(col: Collector, tier: str):
     ok = len(cv) == 1 and src(kwarg(cv[0], "cpp_type")) == "v.get_element_type()" and "base_type_member_access(v)" in src(cv[0].args[0])
     col.add("C10.R4", vsub.short, "indexed-element-has-the-element-type", ok, "", vsub.loc)
     check_default_vector_type(col, "C10.R4", repo)
+    ci_ = repo.find_class("collection").methods["__init__"]
+    pmc_ = parent_map(ci_.node)
+    sups = [c for c in ast.walk(ci_.node) if isinstance(c, ast.Call) and src(c.func) == "super().__init__"]
+    sig = sorted((tuple(src(a) for a in c.args), tuple((k.arg, src(k.value)) for k in c.keywords), tuple((src(t), tr_) for t, tr_ in guards(ci_.node, c, pmc_))) for c in sups)
+    ok = len(sups) == 3 and any(a == ("array_type",) and not kw and ("isinstance(array_type, CPPParsedTypeInfo)", True) in g for a, kw, g in sig) \
+        and any(a == ("array_type",) and kw == (("p_depth", "p_depth"),) for a, kw, g in sig)
+    col.add("C10.R4", "collection.__init__", "declared-array-type-and-depth-forwarded", ok,
+            "a parsed array type carries its own pointer depth; a plain type name takes the given p_depth", ci_.loc)
+    et = [n for n in ast.walk(ci_.node) if isinstance(n, ast.Assign) and src(n.targets[0]) == "self._element_type"]
+    col.add("C10.R4", "collection.__init__", "element-type-stored", len(et) == 1 and src(et[0].value) == "element_type", "", ci_.loc)
     ge = repo.find_class("cpp_collection").methods["get_element_type"]
     col.add("C10.R4", "cpp_collection.get_element_type", "reads-element_type", ".element_type" in src(ge.node), "", ge.loc)
 
